@@ -318,6 +318,29 @@ func (p *peer) act(c net.Conn, pc *peerCipher, b behaviour) bool {
 		return false
 	case "closeBefore":
 		return false
+	case "partialThenServe":
+		// a part of the reply, then nothing more of it — but the peer keeps serving the connection: if the client asks
+		// again on it (it should not: it gave up on a reply in the middle), the peer answers in its own chain
+		ct := enc(frameBytes(b.items, true, now.Unix(), int32(now.Nanosecond())))
+		n := b.k - 100
+		if n >= len(ct) {
+			n = len(ct) - 1
+		}
+		if n > 0 {
+			c.Write(ct[:n])
+		}
+	case "stallInside":
+		// a part of the reply (b.k-100 bytes, possibly ending inside a cipher block), then silence until the client gives up
+		ct := enc(frameBytes(b.items, true, now.Unix(), int32(now.Nanosecond())))
+		n := b.k - 100
+		if n >= len(ct) {
+			n = len(ct) - 1
+		}
+		if n > 0 {
+			c.Write(ct[:n])
+		}
+		io.Copy(io.Discard, c)
+		return false
 	case "closeInside":
 		ct := enc(frameBytes(b.items, true, now.Unix(), int32(now.Nanosecond())))
 		n := 32 * b.k
@@ -377,4 +400,4 @@ func (p *peer) act(c net.Conn, pc *peerCipher, b behaviour) bool {
 	return true
 }
 
-var _ = math.MaxInt64
+var _ = math.MaxInt32
